@@ -288,7 +288,24 @@ fn point_case(ctx: &mut Ctx, wl: &str, case: u64, rng: &mut Rng) {
     ctx.bump(if rz > 1e-3 && rs > 1e-3 { "points_well_inside" } else { "points_near_boundary" });
     ctx.nontrivial_n(1);
     let mut obj = Obj::new(&k);
-    let pj = json!({"cone": vkit::problem::cones_json(&[ct.clone()]), "z": z, "s": s, "rel_margin_z": rz, "rel_margin_s": rs});
+    // half of the cone objects are "used": they have already been scaled at some other interior point with
+    // some strategy (as in iteration k-1 of a solve), so that anything cached from that call would show
+    let age = |o: &mut Obj, rng: &mut Rng| -> Option<&'static str> {
+        if rng.bool(0.5) {
+            return None;
+        }
+        let (m1, m2, m3) = (rng.logpos(-3.0, 3.0), rng.logpos(-3.0, 3.0), rng.logpos(-4.0, 2.0));
+        let z0 = vc::sample_interior(&ct, rng, true, m1, 0.3);
+        let s0 = vc::sample_interior(&ct, rng, false, m2, 0.3);
+        let strat = if rng.bool(0.6) { ScalingStrategy::PrimalDual } else { ScalingStrategy::Dual };
+        let _ = o.update_scaling(&s0, &z0, m3, strat);
+        Some(if matches!(strat, ScalingStrategy::PrimalDual) { "PrimalDual" } else { "Dual" })
+    };
+    let aged1 = age(&mut obj, rng);
+    if aged1.is_some() {
+        ctx.bump("points_on_previously_scaled_cone_objects");
+    }
+    let pj = json!({"cone": vkit::problem::cones_json(&[ct.clone()]), "z": z, "s": s, "rel_margin_z": rz, "rel_margin_s": rs, "object_previously_scaled_with": aged1});
     let mut j = J { ctx, wl, case, k: &k, pj };
     // conditioning: derivatives of the log-barrier at relative distance r from the boundary lose ~1/r digits
     let cz = (1.0 / rz).clamp(1.0, 1e9);
@@ -406,6 +423,7 @@ fn point_case(ctx: &mut Ctx, wl: &str, case: u64, rng: &mut Rng) {
 
     // (6) primal-dual scaling
     let mut obj2 = Obj::new(&k);
+    let _aged2 = age(&mut obj2, rng);
     if !obj2.update_scaling(&s, &z, mu, ScalingStrategy::PrimalDual) {
         j.fail("update_scaling_failed", json!({"strategy": "PrimalDual"}));
         return;
